@@ -348,6 +348,11 @@ def main(argv=None) -> int:
                     known_hits[sig]["count"] += 1
                 else:
                     violations.append(cand)
+        if r["held"] + r.get("violating_paths", 0) == 0:
+            harness_errors.append(f"{cube.name}: no path reached the oracle (paths={r['paths']}, ignored={r['ignored']}, "
+                                  f"unknown={r['unknown']}): the cube is vacuous")
+            r["confirmed"] = False
+            continue
         nsp = sum(1 for v in r["violations"] if not v.get("concrete", {}).get("reproduced"))
         if nsp:
             inconclusive.append(f"{cube.name}: {nsp} solver model(s) did not reproduce when the harness was re-run concretely "
